@@ -47,6 +47,20 @@ fn main() {
         "pipe-child" => {
             scopes::pipe_child(&args[2], &args[3]);
         }
+        "genreq" => {
+            // rsv genreq --seed S --n N --out DIR : request bodies for the serve scope
+            let seed: u64 = arg(&args, "--seed").unwrap_or("1").parse().unwrap();
+            let n: u64 = arg(&args, "--n").unwrap_or("10").parse().unwrap();
+            let out = PathBuf::from(arg(&args, "--out").unwrap_or("out"));
+            fs::create_dir_all(&out).unwrap();
+            scopes::serve::genreq(seed, n, &out);
+        }
+        "flatten" => {
+            // rsv flatten <instance text> <response json> <out>
+            let inst = inst::Inst::from_text(&fs::read_to_string(&args[2]).unwrap());
+            let body = fs::read_to_string(&args[3]).unwrap();
+            fs::write(&args[4], scopes::serve::flatten(inst, &body)).unwrap();
+        }
         other => {
             eprintln!("unknown command {}", other);
             std::process::exit(2);
